@@ -22,6 +22,17 @@ struct Tracked {
     copy: Vec<u8>,
     how: &'static str,
     growths_at_take: u64,
+    /// length of the backing file read BEFORE the reference was obtained
+    flen_at_take: u64,
+}
+
+thread_local! {
+    /// set on the monitored thread during the threaded histories: its stores linger right after taking the write lock
+    static LINGER: std::cell::Cell<bool> = const { std::cell::Cell::new(false) };
+}
+
+fn map_len(store: &Store) -> u64 {
+    std::fs::metadata(store.dir().join("event.map")).map(|m| m.len()).unwrap_or(0)
 }
 
 fn maps_lookup(addr: usize, len: usize) -> String {
@@ -48,6 +59,7 @@ fn check_tracked(rep: &mut Report, store: &Store, tracked: &mut [Tracked], growt
     let mut all_stable = true;
     for t in tracked.iter_mut() {
         rep.count("reference_checks");
+        let flen_before = map_len(store);
         let fresh = match catch(|| store.get_event_by_offset(t.offset).map(|e| (addr_of_ref(e), e.as_bytes().to_vec()))) {
             Ok(Ok(x)) => x,
             Ok(Err(e)) => {
@@ -80,7 +92,10 @@ fn check_tracked(rep: &mut Report, store: &Store, tracked: &mut [Tracked], growt
             let maps = maps_lookup(t.addr, t.len);
             let class = maps.split('(').next().unwrap_or("").to_string();
             rep.count(&format!("stale_reference_now:{class}"));
-            if growths > t.growths_at_take {
+            // (the file length is read after the fresh address was obtained: another thread may have grown the file since
+            // the caller last looked)
+            let flen_now = map_len(store);
+            if growths > t.growths_at_take || flen_now > t.flen_at_take {
                 rep.finding(
                     "base-moved-after-growth",
                     &format!(
@@ -100,6 +115,7 @@ fn check_tracked(rep: &mut Report, store: &Store, tracked: &mut [Tracked], growt
             // moves are still seen
             t.addr = fresh.0;
             t.growths_at_take = growths;
+            t.flen_at_take = flen_before;
         }
     }
     all_stable
@@ -108,6 +124,14 @@ fn check_tracked(rep: &mut Report, store: &Store, tracked: &mut [Tracked], growt
 pub fn run(args: &Args) -> Report {
     let mut rep = Report::new("C15", &args.leg(), &args.tier(), args.seed());
     let debug = is_debug_build();
+    // In the threaded histories the monitored thread lingers for a fraction of a millisecond right after it has got the
+    // write lock and before its store has any effect, so that stores of the other thread regularly ENTER (and take
+    // whatever they read before queueing for the lock) while a store of this thread is in progress.
+    pocket_db::verif::set_point_handler(Some(Arc::new(|name: &'static str| {
+        if name == "store.after_write_txn" && LINGER.with(|l| l.get()) {
+            std::thread::sleep(std::time::Duration::from_micros(400));
+        }
+    })));
     let n = if args.thorough() { if debug { 400 } else { 40 } } else if debug { 20 } else { 6 };
     let only: Option<u64> = args.get("index").and_then(|s| s.parse().ok());
     for i in 0..n {
@@ -127,6 +151,43 @@ pub fn run(args: &Args) -> Report {
                 rep.inconclusive.push(format!("open failed: {e}"));
                 continue;
             }
+        };
+        // In the threaded histories a second thread keeps submitting, concurrently with everything below, requests that
+        // the store refuses (deletion requests of another author naming a stored event, duplicates) and a few small
+        // events of its own: stores "by any other thread", successful or not, must leave referenced bytes alone.
+        let noise_ids: Arc<std::sync::Mutex<Vec<[u8; 32]>>> = Arc::new(std::sync::Mutex::new(vec![]));
+        // the other thread's stores may run while this thread STORES, but not while it reads through references (a growth
+        // triggered from there at that moment is the recorded finding of C14, and would take the monitor down with it)
+        let noise_quiet = Arc::new(std::sync::Mutex::new(()));
+        let noise_stop = Arc::new(std::sync::atomic::AtomicBool::new(false));
+        let noise_counts = Arc::new((std::sync::atomic::AtomicU64::new(0), std::sync::atomic::AtomicU64::new(0)));
+        LINGER.with(|l| l.set(threaded));
+        let noise = if threaded {
+            let (st, ids, stop, counts, quiet) = (store_slot.as_ref().unwrap().clone(), noise_ids.clone(), noise_stop.clone(), noise_counts.clone(), noise_quiet.clone());
+            let seed = args.seed() ^ i << 8;
+            Some(std::thread::spawn(move || {
+                use std::sync::atomic::Ordering::Relaxed;
+                let mut r = Rng::new(seed ^ 0x401CE);
+                let mut n = 0u64;
+                while !stop.load(Relaxed) {
+                    n += 1;
+                    let target = { ids.lock().unwrap().last().cloned() };
+                    let sem = match (n % 3, target) {
+                        (0, _) | (_, None) => SemEvent { id: r.arr32(), pubkey: crate::dbgen::author(8), sig: [2; 64], kind: 1, created_at: 5, tags: vec![], content: "n".into() },
+                        (_, Some(t)) => SemEvent { id: r.arr32(), pubkey: crate::dbgen::author(9), sig: [2; 64], kind: 5, created_at: 5, tags: vec![vec!["e".into(), hex(&r.arr32())], vec!["e".into(), hex(&t)]], content: String::new() },
+                    };
+                    if let Some(ev) = Ev::new(sem) {
+                        let _g = quiet.lock().unwrap();
+                        match st.store_event(&pocket_types::OwnedEvent(ev.bytes.clone())) {
+                            Ok(_) => counts.0.fetch_add(1, Relaxed),
+                            Err(_) => counts.1.fetch_add(1, Relaxed),
+                        };
+                    }
+                    std::thread::sleep(std::time::Duration::from_micros(150));
+                }
+            }))
+        } else {
+            None
         };
         let content_len = if debug { *rng.pick(&[0usize, 40, 200, 350, 700]) } else { 60_000 + rng.usize_below(4000) };
         // enough stores to cross at least three growth steps
@@ -240,7 +301,7 @@ pub fn run(args: &Args) -> Report {
             // several steps at once), referenced, with ordinary growth steps following it
             // an event sized so that it ends within the last bytes of the backing file as it is now (0..7 bytes before
             // the end, or exactly at it): referenced, and then the file grows under the following stores
-            if debug && (k == 9 || k == 23 || k == 41) {
+            if debug && !threaded && (k == 9 || k == 23 || k == 41) {
                 let path = dir.join("event.map");
                 if let Ok(f) = std::fs::File::open(&path) {
                     use std::os::unix::fs::FileExt;
@@ -325,17 +386,26 @@ pub fn run(args: &Args) -> Report {
                 let off = match res {
                     Ok(o) => o,
                     Err(err) => {
-                        rep.inconclusive.push(format!("store failed: {err}"));
+                        // every event of this history is acceptable on its own; before giving up, look at what the
+                        // references taken so far denote now
+                        let _reading = noise_quiet.lock().unwrap();
+                        if check_tracked(&mut rep, store, &mut tracked, growths, &ctx) || !(rep.has_finding("bytes-changed") || rep.has_finding("bytes-changed-at-stable-address") || rep.has_finding("reference-target-unreadable")) {
+                            rep.inconclusive.push(format!("store failed: {err}"));
+                        }
                         break 'hist;
                     }
                 };
                 stores_done += 1;
+                if e.sem.kind == 1 {
+                    noise_ids.lock().unwrap().push(e.sem.id);
+                }
                 let len_now = std::fs::metadata(dir.join("event.map")).map(|m| m.len()).unwrap_or(0);
                 if len_now > last_len {
                     growths += 1;
                     last_len = len_now;
                 }
                 // all references taken so far must still be where the live mapping has their offsets
+                let _reading = noise_quiet.lock().unwrap();
                 if !check_tracked(&mut rep, &store, &mut tracked, growths, &ctx) {
                     ok = false;
                     if rep.has_finding("bytes-changed") || rep.has_finding("bytes-changed-at-stable-address") || rep.has_finding("reference-target-unreadable") {
@@ -343,26 +413,33 @@ pub fn run(args: &Args) -> Report {
                     }
                 }
                 // take new references (three ways), recording address, length and a byte copy
+                let fl = map_len(store);
+                // the offset this very store returned must be readable (else there is nothing to hold a reference to)
+                if let Err(e) = store.get_event_by_offset(off) {
+                    rep.finding("reference-target-unreadable", &format!("offset {off}, just returned by store_event, cannot be read: {e}"), ctx.clone());
+                    break 'hist;
+                }
                 if st.track && tracked.len() < 300 {
                     if let Ok(r) = store.get_event_by_offset(off) {
-                        tracked.push(Tracked { addr: addr_of_ref(r), len: r.len(), offset: off, copy: r.as_bytes().to_vec(), how: "by offset", growths_at_take: growths });
+                        tracked.push(Tracked { addr: addr_of_ref(r), len: r.len(), offset: off, copy: r.as_bytes().to_vec(), how: "by offset", growths_at_take: growths, flen_at_take: fl });
                     }
                     if let Ok(Some(r)) = store.get_event_by_id(Id::from_bytes(e.sem.id)) {
-                        tracked.push(Tracked { addr: addr_of_ref(r), len: r.len(), offset: off, copy: r.as_bytes().to_vec(), how: "by id", growths_at_take: growths });
+                        tracked.push(Tracked { addr: addr_of_ref(r), len: r.len(), offset: off, copy: r.as_bytes().to_vec(), how: "by id", growths_at_take: growths, flen_at_take: fl });
                     }
                     let f = SemFilter { ids: vec![e.sem.id], ..SemFilter::empty() }.to_owned().unwrap();
                     if let Ok((evs, _)) = store.find_events(&f, true, 0, 0, |_| ScreenResult::Match) {
                         for r in evs {
-                            tracked.push(Tracked { addr: addr_of_ref(r), len: r.len(), offset: off, copy: r.as_bytes().to_vec(), how: "from a query", growths_at_take: growths });
+                            tracked.push(Tracked { addr: addr_of_ref(r), len: r.len(), offset: off, copy: r.as_bytes().to_vec(), how: "from a query", growths_at_take: growths, flen_at_take: fl });
                         }
                     }
                 }
                 if !st.track && tracked.len() < 900 {
                     // every other stored event is referenced once, by offset
                     if let Ok(r) = store.get_event_by_offset(off) {
-                        tracked.push(Tracked { addr: addr_of_ref(r), len: r.len(), offset: off, copy: r.as_bytes().to_vec(), how: "by offset", growths_at_take: growths });
+                        tracked.push(Tracked { addr: addr_of_ref(r), len: r.len(), offset: off, copy: r.as_bytes().to_vec(), how: "by offset", growths_at_take: growths, flen_at_take: fl });
                     }
                 }
+                drop(_reading);
                 if st.remove_after {
                     let _ = store.remove_event(Id::from_bytes(e.sem.id));
                     rep.count("explicit_removals");
@@ -381,6 +458,13 @@ pub fn run(args: &Args) -> Report {
             rep.sample(json!({"history": i, "stores": events.len(), "growths": growths, "references_tracked": tracked.len(), "threaded": threaded, "all_addresses_stable": ok}));
         }
         drop(tracked);
+        LINGER.with(|l| l.set(false));
+        noise_stop.store(true, std::sync::atomic::Ordering::Relaxed);
+        if let Some(h) = noise {
+            let _ = h.join();
+            rep.count_n("concurrent_stores_by_another_thread_accepted", noise_counts.0.load(std::sync::atomic::Ordering::Relaxed));
+            rep.count_n("concurrent_stores_by_another_thread_refused", noise_counts.1.load(std::sync::atomic::Ordering::Relaxed));
+        }
         if let Some(st) = store_slot {
             if let Ok(s) = Arc::try_unwrap(st) {
                 let _ = s.verif_close();
@@ -394,6 +478,7 @@ pub fn run(args: &Args) -> Report {
     if only.is_none() && !rep.has_finding("bytes-changed") && !rep.has_finding("bytes-changed-at-stable-address") && !rep.has_finding("reference-target-unreadable") {
         rep.require("tail_replacements_of_a_referenced_event", "no referenced event was replaced while it was the newest in the map");
         rep.require("tail_removals_of_a_referenced_event", "no referenced event was removed while it was the newest in the map");
+        rep.require("concurrent_stores_by_another_thread_refused", "no refused store ran on another thread while references were held");
         rep.require("referenced_ephemeral_events", "no ephemeral event was stored and referenced");
         rep.require("events_larger_than_two_growth_steps", "no event larger than two growth steps was stored");
         if debug {
@@ -401,6 +486,7 @@ pub fn run(args: &Args) -> Report {
         }
         rep.require("references_to_an_event_that_expired_while_referenced", "no referenced event passed its expiration time during the run");
     }
+    pocket_db::verif::set_point_handler(None);
     rep
 }
 
